@@ -3,7 +3,7 @@
 #   patch applies, 174 tests pass with it, demo fails with it, demo passes without it.
 # then copy patch.diff, demo.rs, meta.json to /verif/seeded/<ID>/
 ID="$1"; SUF="${2:-}"
-W=/tmp/seed/$ID
+ROOT="${SEEDROOT:-/tmp/seed}"; W=$ROOT/$ID
 cd "$W" || exit 2
 export CARGO_NET_OFFLINE=true
 git checkout -q -- src 2>/dev/null
@@ -12,9 +12,9 @@ if grep -q "verif_hooks\|verif_wasm_host" seed/demo.rs; then FLAGS="--cfg fast_q
 cp seed/demo.rs examples/seed_demo.rs
 git apply seed/patch.diff || { echo "$ID: PATCH DOES NOT APPLY"; exit 1; }
 T=$(cargo test --workspace --no-fail-fast --offline --lib 2>&1 | grep "test result" | head -1)
-RUSTFLAGS="$FLAGS" cargo run --offline --features image --example seed_demo >/tmp/seed/$ID.with.log 2>&1; RC_WITH=$?
+RUSTFLAGS="$FLAGS" cargo run --offline --features image --example seed_demo >$ROOT/$ID.with.log 2>&1; RC_WITH=$?
 git checkout -q -- src
-RUSTFLAGS="$FLAGS" cargo run --offline --features image --example seed_demo >/tmp/seed/$ID.without.log 2>&1; RC_WITHOUT=$?
+RUSTFLAGS="$FLAGS" cargo run --offline --features image --example seed_demo >$ROOT/$ID.without.log 2>&1; RC_WITHOUT=$?
 echo "$ID: tests='$T' demo_with_patch_rc=$RC_WITH demo_without_patch_rc=$RC_WITHOUT flags='$FLAGS'"
 if echo "$T" | grep -q "174 passed; 0 failed" && [ $RC_WITH -ne 0 ] && [ $RC_WITHOUT -eq 0 ]; then
   D=/verif/seeded/$ID$SUF; mkdir -p $D
@@ -31,5 +31,5 @@ json.dump(meta,open(D+'/meta.json','w'),indent=1,ensure_ascii=False)
 PY
   echo "$ID: CONFIRMED -> $D"
 else
-  echo "$ID: NOT CONFIRMED"; tail -5 /tmp/seed/$ID.with.log; tail -5 /tmp/seed/$ID.without.log
+  echo "$ID: NOT CONFIRMED"; tail -5 $ROOT/$ID.with.log; tail -5 $ROOT/$ID.without.log
 fi
